@@ -611,6 +611,10 @@ func fieldCallKey(v ssa.Value) (string, bool) {
 	if !ok || u.Op != token.MUL {
 		return "", false
 	}
+	// a call through a package-level variable of function type: "<pkg>::var Name"
+	if gl, ok := u.X.(*ssa.Global); ok && gl.Pkg != nil {
+		return gl.Pkg.Pkg.Path() + "::var " + gl.Name(), true
+	}
 	fa, ok := u.X.(*ssa.FieldAddr)
 	if !ok {
 		return "", false
